@@ -465,4 +465,5 @@ func runC03(c *mon.Ctx) {
 			}
 		}
 	}
+	c03Huge(c)
 }
